@@ -61,6 +61,12 @@ def gen_retry(rng):
         spec["allowed_methods"] = am
     spec["status_forcelist"] = rng.choice([[], [500], [429, 503], [500, 503]])
     spec["raise_on_status"] = rng.random() < 0.7
+    # the redirect side of the policy is independent of everything here (no exchange is a redirect): it must not change what
+    # an exhausted status budget turns into
+    if rng.random() < 0.5:
+        spec["raise_on_redirect"] = rng.random() < 0.5
+    if rng.random() < 0.2:
+        spec["redirect"] = rng.choice([0, 1, False])
     spec["respect_retry_after_header"] = rng.random() < 0.75
     spec["backoff_factor"] = rng.choice([0, 0, 0.1, 1, 100])
     spec["backoff_max"] = rng.choice([0.5, 120])
@@ -285,14 +291,24 @@ def run(sc: dict) -> Result:
                     }[lc]
                     if type(reason).__name__ not in okr:
                         res.bad("wrong_cause", f"MaxRetryError.reason={reason!r} but the last attempt was {last}")
+                    if lc == "status" and not policy.raise_on_status:
+                        res.bad("raised_despite_raise_on_status_false", f"{e!r}; last attempt {last}; raise_on_redirect={policy.raise_on_redirect}")
             else:
                 res.probes["raised:" + type(e).__name__] += 1
         elif outcome[0] == "response":
             last = att[-1] if att else None
             if last is None or last[0] != "response" or last[4] != outcome[1]:
                 res.bad("wrong_response", f"returned status {outcome[1]} but the last attempt on the wire was {last}")
-            elif outcome[1] >= 400 and k >= 2:
-                res.probes["returned_last_response"] += 1
+            else:
+                if outcome[1] >= 400 and k >= 2:
+                    res.probes["returned_last_response"] += 1
+                if retryable_method and outcome[1] in forcelist:
+                    # a forcelisted status on a retryable method is either retried or the end of the budget; handing it back
+                    # is what raise_on_status=False asks for, and nothing else does
+                    if policy.raise_on_status:
+                        res.bad("exhaustion_not_raised", f"forcelisted {outcome[1]} returned after {k} attempts although raise_on_status is set (raise_on_redirect={policy.raise_on_redirect})")
+                    else:
+                        res.probes["exhausted_return"] += 1
         if any(a[1] == "tls-untrusted" for a in retried):
             res.probes["tls_error_retried"] += 1
         if cfg["path"] == "tunnel" and any(q.method == "CONNECT" for q in w.requests):
